@@ -391,6 +391,20 @@ var movementCmds = map[string]bool{
 	"beginning-of-line-hist": false, "vi-beginning-of-line": true, "vi-goto-column": true,
 }
 
+// plainCmds is the plain editing repertoire (besides the movement commands) inside which
+// movement purity and the vi-command cursor rule are judged.
+var plainCmds = map[string]bool{
+	"self-insert": true, "digit-argument": true, "vi-arg-digit": true, "backward-delete-char": true, "delete-char": true,
+	"kill-line": true, "kill-word": true, "backward-kill-word": true, "unix-word-rubout": true, "unix-line-discard": true,
+	"backward-kill-line": true, "yank": true, "transpose-chars": true, "vi-movement-mode": true, "vi-insertion-mode": true,
+	"vi-append-mode": true, "vi-append-eol": true, "vi-insert-beg": true, "vi-delete": true, "vi-put-before": true,
+	"vi-put-after": true, "vi-visual-mode": true, "undo": true, "vi-undo": true, "tab-insert": true, "accept-line": true,
+	"kill-region": true, "kill-whole-line": true, "capitalize-word": true, "up-case-word": true, "down-case-word": true,
+	"previous-history": true, "next-history": true, "up-line-or-history": true, "down-line-or-history": true,
+	"vi-backward-delete-char": true, "vi-change-case": true, "vi-kill-eol": true, "vi-change-eol": true, "delete-word": true,
+	"vi-open-line-above": true, "vi-open-line-below": true, "vi-first-print": true,
+}
+
 // verbatimModeCmds start a mode in which every key is inserted as text.
 var verbatimModeCmds = map[string]bool{
 	"non-incremental-forward-search-history": true, "non-incremental-reverse-search-history": true,
@@ -434,7 +448,9 @@ func genC06(g *Gen, tier string, idx int) *wire.Scenario {
 	sc.Env = env
 	// 1. build a buffer
 	nb := g.Range(0, 12)
-	uni := g.P(35)
+	// typed text is ASCII here: non-ASCII input is C02's subject (and broken on the pinned tree);
+	// multi-byte buffers reach this check through history recall
+	uni := false
 	for i := 0; i < nb; i++ {
 		r := g.textRune(uni)
 		sc.Script = append(sc.Script, tok(string(r), "self-insert"))
@@ -446,7 +462,7 @@ func genC06(g *Gen, tier string, idx int) *wire.Scenario {
 		}
 	}
 	// 2. edit and move
-	o := ScriptOpts{Mode: mode, N: g.Range(3, 16), Unicode: uni, RawPct: 0,
+	o := ScriptOpts{Mode: mode, N: g.Range(3, 16), Unicode: uni, RawPct: 0, NativeVi: true,
 		Exclude: map[string]bool{"edit-command-line": true, "vi-edit-command-line": true, "edit-and-execute-command": true,
 			"vi-edit-and-execute-command": true, "re-read-init-file": true, "clear-screen": true, "clear-display": true}}
 	moveBias := g.P(60)
@@ -506,7 +522,7 @@ func genC06(g *Gen, tier string, idx int) *wire.Scenario {
 	}
 	sc.Plan = wire.Plan{Policy: "canonical", Class: "S0"}
 	if idx%3 == 1 {
-		sc.Plan = wire.Plan{Policy: "seeded", Class: "S1", Seed: g.Seed()}
+		sc.Plan = wire.Plan{Policy: "seeded", Class: "S1", Seed: g.Seed(), ViRule: true}
 	}
 	return sc
 }
@@ -573,6 +589,31 @@ func execC06(x *Ctx, sc *wire.Scenario) *wire.Result {
 		res.Counters["skipped:crash"]++
 		return res
 	}
+	// plainUntil: number of leading tokens that resolve, from the live keymaps, to commands of a
+	// plain editing repertoire. The vi-command cursor rule and movement purity are only judged
+	// inside that prefix: beyond it the editor may be in a mode the public API does not show
+	// (replace mode, searches, pending operators started through harness binds, ...).
+	plainUntil := 0
+	for i, t := range sc.Script {
+		before := waitAfter(out, i)
+		if before == nil {
+			break
+		}
+		if before.Kind == "arg" {
+			if len(t.B) != 1 || t.B[0] < 0x20 || t.B[0] > 0x7e {
+				break
+			}
+			plainUntil = i + 1
+			continue
+		}
+		cmd, amb := resolveToken(x.Cat, &sc.Env, before.Main, before.Local, string(t.B))
+		lone := string(t.B) == "\x1b" && before.Main == "vi-insert" && before.Local == ""
+		if (amb && !lone) || (!plainCmds[cmd] && !movementCmds[cmd] && !lone) {
+			break
+		}
+		plainUntil = i + 1
+	}
+	res.Counters["plain_prefix_tokens"] += plainUntil
 	// (a) invariants at every input wait
 	for i := range out.Waits {
 		w := &out.Waits[i]
@@ -585,7 +626,7 @@ func execC06(x *Ctx, sc *wire.Scenario) *wire.Result {
 		// Not judged at the one wait right after incremental search is left: there the
 		// API still hands out the search minibuffer (insert semantics) for one more command.
 		leftIsearch := i > 0 && (out.Waits[i-1].Local == "isearch" || (w.Partial > 0 && i > 1 && out.Waits[i-2].Local == "isearch"))
-		if w.Kind == "main" && (w.Main == "vi-command" || w.Main == "vi-move" || w.Main == "vi") && w.Local == "" && n > 0 && w.Pos == n && !leftIsearch {
+		if w.Kind == "main" && (w.Main == "vi-command" || w.Main == "vi-move" || w.Main == "vi") && w.Local == "" && n > 0 && w.Pos == n && !leftIsearch && w.Tokens <= plainUntil {
 			// allowed only when the cursor's line is empty
 			rs := []rune(w.Line)
 			if !(rs[n-1] == '\n') {
@@ -606,6 +647,7 @@ func execC06(x *Ctx, sc *wire.Scenario) *wire.Result {
 	}
 	// (c) movement purity, (b) returned line == buffer at acceptance
 	lastOp, prevCmd := "", ""
+	exotic := false
 	tainted := false // the previous token may have left a pending key prefix
 	// stale[i]: the wait right after incremental search was left, where the API still
 	// hands out the search minibuffer for one more command (not judged).
@@ -644,10 +686,23 @@ func execC06(x *Ctx, sc *wire.Scenario) *wire.Result {
 			if before.Local == "" {
 				lastOp = cmd
 			}
+			if before.Main != "vi-command" {
+				// an operator started outside vi command mode (only possible through the harness
+				// binds) leaves a pending operator the keymaps do not show: purity is not judged further
+				exotic = true
+			}
+		}
+		if exotic {
+			break
 		}
 		end := i + 1
-		if argCommands[cmd] && end < len(sc.Script) && sc.Script[end].Cmd == "arg-key" {
-			end++
+		if w := waitAfter(out, end); w != nil && w.Kind == "arg" && end < len(sc.Script) {
+			end++ // the command is parked reading one more key: the next token is its argument
+			if len(sc.Script[end-1].B) != 1 {
+				// only the first key of a multi-key token is the argument, the rest is ordinary input
+				tainted = true
+				continue
+			}
 		}
 		after := waitAfter(out, end)
 		if cmd == "accept-line" && after == nil && i == len(sc.Script)-1 {
@@ -660,7 +715,7 @@ func execC06(x *Ctx, sc *wire.Scenario) *wire.Result {
 			}
 			continue
 		}
-		if after == nil || !movementCmds[cmd] {
+		if after == nil || !movementCmds[cmd] || end > plainUntil {
 			continue
 		}
 		// operator-pending: only judged when the token right before was the yank operator itself
